@@ -236,6 +236,7 @@ namespace std {
     template<class A, SYMX_ARITH(A)> complex (const Sym& a, A b) : _M_real (a), _M_imag (Sym(b)) { }
     template<class A, SYMX_ARITH(A)> complex (A a, const Sym& b) : _M_real (Sym(a)), _M_imag (b) { }
     template<class X> complex (const complex<X>& z) : _M_real (z.real()), _M_imag (z.imag()) { }
+    const complex& __rep () const { return *this; }
     Sym real () const { return _M_real; }
     Sym imag () const { return _M_imag; }
     void real (const Sym& v) { _M_real = v; }
